@@ -46,6 +46,7 @@ TRUSTED_BASE = [
     "axioms: propext, Classical.choice, Quot.sound only (audited with #print axioms on every registered theorem); no native_decide, no bv_decide, no sorry/admit, no own axioms",
     "Lean compiler/runtime for the `driver` executable (assumed to compute what the kernel-level definitions denote)",
     "correspondence machinery: harness/harness.cpp (op interpreter over the real library, built from /repo's working tree with ASan+UBSan, -fno-sanitize=vptr,alignment,nonnull-attribute), vlib/*.py generators and differ, g++ 12, libstdc++",
+    "translator (source-level theorems): clang++-14 parser and typed JSON AST; vlib/srctrans.py, srcdeep.py, srcfields.py, srcobj.py, srctmpl.py, srctecmp.py, srcsig.py and the hand-written semantics of the primitives they emit (lean/AsamCmp/Src/Sem.lean, Obj.lean, ObjTecmp.lean, BitProg.lean): flat byte memory, C++17 integer rules, std containers / unique_ptr / shared_ptr / string_view / to_string as lists, Options and named primitives; member offsets and default bytes reflected by a generated program compiled with g++; untranslated functions are listed in the generated files",
     "protocol tables in vlib/proto.py and lean/AsamCmp/Layout.lean (written from the ASAM CMP / TECMP layouts; the documents are not in the sandbox)",
     "little-endian x86-64 host; C++ object lifetime/aliasing is modelled by immutable values, not verified",
 ]
